@@ -94,6 +94,16 @@ def gen_pairs(ctx):
         for _ in range(k):
             y = struct.unpack("<d", struct.pack("<Q", struct.unpack("<Q", struct.pack("<d", y))[0] + 1))[0] if y >= 0 else y
         pairs.append((fbits(x), fbits(y)))
+    # values nested 60 .. 120 containers deep (arrays, objects, alternating): equality is structural at every depth
+    def wrap(x, k, kind):
+        for i in range(k):
+            x = "[ " + x + " ]" if (kind == "a" or (kind == "m" and i % 2)) else "{ s61 " + x + " }"
+        return x
+    for k in ([63, 64, 65, 66, 100, 120] if ctx.tier == "quick" else list(range(60, 70)) + [90, 100, 110, 120]):
+        for kind in "aom":
+            for x, y in [("u1", "u1"), ("u1", G.f64_bits(1.0)), ("u1", "u2"), (G.enc_str("a"), G.enc_str("a")), ("n", "n"), ("[ ]", "{ }"), ("t", "t")]:
+                pairs.append((wrap(x, k, kind), wrap(y, k, kind)))
+            pairs.append((wrap("u1", k, kind), wrap("u1", k + 1, kind)))
     seen, out = set(), []
     for p in pairs:
         if p not in seen:
@@ -246,11 +256,31 @@ def second_pass(ctx, pairs, first):
                 e2 = "[%s==%s,%s!=%s,%s<%s,%s<=%s,%s>%s,%s>=%s]" % ((sa, sb) * 6)
                 lines.append(C.hexs(e2) + "\tu0")
                 meta.append(("lit2", k, e2))
+    # chains of comparison operators: all six have one binding power and group to the left, so `x == y < z` is `(x == y) < z`
+    CH = "[[0]==[1]<[2],([0]==[1])<[2],[0]<[1]==[2],([0]<[1])==[2],[0]!=[1]>=[2],([0]!=[1])>=[2],[0]<=[1]!=[2],([0]<=[1])!=[2],[0]==[1]==[2],([0]==[1])==[2],[0]>[1]>[2],([0]>[1])>[2]]"
+    for k in sel[:400 if ctx.tier == "quick" else 20000]:
+        a, b = pairs[k]
+        c = rng.choice([pairs[rng.randrange(len(pairs))][0], "t", "f", "n", "u1", "u0", a, b])
+        if len(a) + len(b) + len(c) < 2000:
+            lines.append(C.hexs(CH) + "\t[ " + a + " " + b + " " + c + " ]")
+            meta.append(("chain", k, CH))
     impl, model = S.run_both(ctx, "eval", lines)
     for (kind, k, e), i, m in zip(meta, impl, model):
         ctx.evaluations += 1
         a, b = pairs[k]
         f = first[k]
+        if kind == "chain":
+            a, b = pairs[k]
+            if not i or not i.startswith("ok [ ") or len(i[5:-2].split(" ")) != 12:
+                ctx.violation("eval", [a, b], (i or "NONE")[:300], "a list of 12 booleans/nulls", "a chain of comparisons did not evaluate (%s)" % CH)
+                continue
+            r = i[5:-2].split(" ")
+            if any(r[j] != r[j + 1] for j in range(0, 12, 2)):
+                ctx.violation("eval", [a, b], i[:200], "pairwise equal answers",
+                              "comparison operators share one binding power and group to the left: `x OP y OP' z` must equal `(x OP y) OP' z` (document %s)" % lines[meta.index((kind, k, e))].split("\t")[1][:300])
+            if (m or "NONE").split("\t")[0] != i:
+                ctx.tie_broken("stream eval (comparison chains): model vs implementation", f"pair {[a, b]}: impl {i[:120]} model {(m or 'NONE')[:120]}")
+            continue
         if not f or not f.startswith("ok [ ") or len(f[5:-2].split(" ")) != 10:
             continue
         eq, ne, lt, le, gt, ge, eq_sw, eq_self, lt_sw, gt_sw = f[5:-2].split(" ")
